@@ -465,6 +465,30 @@ def F27():
         shutil.rmtree(d)
 
 
+def F28():
+    import tempfile, shutil, subprocess, textwrap
+    d = tempfile.mkdtemp(prefix='f28_')
+    try:
+        p = os.path.join(d, 'x.nii')
+        data = (np.arange(64 * 64 * 8, dtype=np.int16) % 997).reshape(64, 64, 8)
+        img = nb.Nifti1Image(data, np.eye(4)); img.header.set_dim_info(None, None, 2)
+        for n in (10, 100000):
+            NiftiWrapper(img, make_empty=True).to_filename(p)
+            code = textwrap.dedent("""
+                import sys; sys.path.insert(0, %r)
+                from dcmstack.dcmmeta import NiftiWrapper
+                nw = NiftiWrapper.from_filename(%r)
+                nw.meta_ext.get_class_dict(('global', 'const'))['K'] = 'v' * %d
+                nw.to_filename(%r)""" % (os.path.join(REPO, 'src'), p, n, p))
+            r = subprocess.run([sys.executable, '-c', code], capture_output=True)
+            if r.returncode != 0:
+                return 'from_filename + to_filename over the same .nii: process exit status %d (SIGBUS = -7), file size now %d' % (r.returncode, os.path.getsize(p))
+            if not np.array_equal(np.asanyarray(nb.load(p).dataobj), data):
+                return 'from_filename + to_filename over the same .nii (extension grown by %d bytes) corrupted the voxel data' % n
+    finally:
+        shutil.rmtree(d)
+
+
 # ---- open findings (recorded in known-findings.txt, not repaired): these report PRESENT on the current tree
 def N1():
     e = DcmMetaExtension.make_empty((2, 2, 2, 1), np.eye(4), None, 2)
@@ -589,7 +613,7 @@ def deepcopy_ext(e):
 
 
 OPEN = ['N1', 'N2', 'N3', 'N4', 'N6', 'N8', 'N9', 'N11', 'N13', 'N14']
-ALL = ['F27', 'F26', 'F25', 'F24', 'F23', 'F22', 'F21', 'F20', 'F19', 'F18', 'F17', 'F16', 'F15', 'F1', 'F2', 'F3', 'F4', 'F5', 'F6', 'F7', 'F8', 'F9', 'F10', 'F11', 'F12', 'F13', 'F14']
+ALL = ['F28', 'F27', 'F26', 'F25', 'F24', 'F23', 'F22', 'F21', 'F20', 'F19', 'F18', 'F17', 'F16', 'F15', 'F1', 'F2', 'F3', 'F4', 'F5', 'F6', 'F7', 'F8', 'F9', 'F10', 'F11', 'F12', 'F13', 'F14']
 
 if __name__ == '__main__':
     which = sys.argv[1:] or ALL
